@@ -502,6 +502,10 @@ snarf_rrule(const char *s, size_t z)
 				rr.count = tmp;
 				break;
 			case KEY_INTER:
+				if (UNLIKELY(tmp < 0 || tmp > 0x7fffffffL)) {
+					/* as bogus as 0, it'd become 0 or huge */
+					goto bogus;
+				}
 				rr.inter = (unsigned int)tmp;
 				break;
 			}
